@@ -18,6 +18,8 @@ pub struct NoUnusedFragments<'a> {
 
 impl<'a> NoUnusedFragments<'a> {
     fn find_reachable_fragments(&self, from: &Scope<'a>, result: &mut HashSet<&'a str>) {
+        #[cfg(async_graphql_verif)]
+        crate::verif_hooks::RULE_STEPS[4].fetch_add(1, std::sync::atomic::Ordering::Relaxed);
         if let Scope::Fragment(name) = *from {
             if result.contains(name) {
                 return;
